@@ -138,7 +138,8 @@ DecCounter ==
     /\ Running /\ DTop.op = "cnt"
     /\ LET w == DTop.n IN
          IF Remaining < w THEN Reject("counter beyond end")
-         ELSE LET n == CountOf(Read(w)) IN
+         ELSE IF CountOf(Read(w)) < DTop.s THEN Reject("counter below shift")
+         ELSE LET n == CountOf(Read(w)) - DTop.s IN
               IF DTop.a > 0 /\ n > DTop.a THEN Reject("counter above limit")
               ELSE IF n > Remaining - w THEN Reject("counter above remaining input")
               ELSE /\ dframes' = << [Head(dframes) EXCEPT ![DTop.m] = n] >> \o Tail(dframes)
